@@ -14,120 +14,7 @@ pub mod spec {
 //@item src/write.rs | const EXTRA_FIELD_MAPPING
 //@include spec/extra_ok.rs
 
-// ---- types of the writer, cut verbatim
-pub mod zipcrypto {
-use vstd::prelude::*;
-use super::*;
-use std::num::Wrapping;
-//@item src/zipcrypto.rs | struct ZipCryptoKeys
-//@item src/zipcrypto.rs | struct ZipCryptoWriter
-// ghost: the buffering ZipCrypto writer is not a device
-impl<W> Dev for ZipCryptoWriter<W> {
-    open spec fn g_dev(&self) -> bool { false }
-    open spec fn g_bytes(&self) -> Seq<u8> { Seq::empty() }
-    open spec fn g_pos(&self) -> int { 0 }
-    open spec fn g_fault(&self) -> bool { false }
-}
-//@impl src/zipcrypto.rs | impl<W: std::io::Write> std::io::Write for ZipCryptoWriter<W>
-impl<W: Write> Write for ZipCryptoWriter<W> {   // T8 `std_io`: std::io::Write is the shim trait
-//@use zcwriter_write
-//@use zcwriter_flush
-}
-}
-//@item src/write.rs | enum MaybeEncrypted
-//@item src/write.rs | enum GenericZipWriter
-//@item src/write.rs | struct ZipWriterStats
-//@item src/write.rs | struct FileOptions
-
-// ghost: MaybeEncrypted is the sink itself when unencrypted, a buffer otherwise
-impl<W: Dev> Dev for MaybeEncrypted<W> {
-    open spec fn g_dev(&self) -> bool { match self { MaybeEncrypted::Unencrypted(w) => w.g_dev(), MaybeEncrypted::Encrypted(_) => false } }
-    open spec fn g_bytes(&self) -> Seq<u8> { match self { MaybeEncrypted::Unencrypted(w) => w.g_bytes(), MaybeEncrypted::Encrypted(_) => Seq::empty() } }
-    open spec fn g_pos(&self) -> int { match self { MaybeEncrypted::Unencrypted(w) => w.g_pos(), MaybeEncrypted::Encrypted(_) => 0 } }
-    open spec fn g_fault(&self) -> bool { match self { MaybeEncrypted::Unencrypted(w) => w.g_fault(), MaybeEncrypted::Encrypted(_) => false } }
-    open spec fn g_ready(&self) -> bool { match self { MaybeEncrypted::Unencrypted(w) => w.g_ready(), MaybeEncrypted::Encrypted(_) => true } }
-}
-//@impl src/write.rs | impl<W: Write> Write for MaybeEncrypted<W>
-impl<W: Write> Write for MaybeEncrypted<W> {
-//@use maybeenc_write
-//@use maybeenc_flush
-}
-// ---- GenericZipWriter: which method the installed encoder implements, and the plain-sink shape
-pub open spec fn gzw_method<W: Write + io::Seek>(g: GenericZipWriter<W>) -> Option<CompressionMethod> {
-    match g {
-        GenericZipWriter::Closed => None,
-        GenericZipWriter::Storer(_) => Some(CompressionMethod::Stored),
-        GenericZipWriter::Deflater(_) => Some(CompressionMethod::Deflated),
-        GenericZipWriter::Bzip2(_) => Some(CompressionMethod::Bzip2),
-        GenericZipWriter::Zstd(_) => Some(CompressionMethod::Zstd),
-    }
-}
-pub open spec fn gzw_plain<W: Write + io::Seek>(g: GenericZipWriter<W>) -> bool {
-    g matches GenericZipWriter::Storer(MaybeEncrypted::Unencrypted(_))
-}
-pub open spec fn gzw_plain_sink<W: Write + io::Seek>(g: GenericZipWriter<W>) -> W {
-    g->Storer_0->Unencrypted_0
-}
-// the sink the installed encoder was created over / the level it runs at / the plaintext it has accepted
-pub open spec fn gzw_sink<W: Write + io::Seek>(g: GenericZipWriter<W>) -> MaybeEncrypted<W> {
-    match g {
-        GenericZipWriter::Closed => arbitrary(),
-        GenericZipWriter::Storer(w) => w,
-        GenericZipWriter::Deflater(e) => e.inner(),
-        GenericZipWriter::Bzip2(e) => e.inner(),
-        GenericZipWriter::Zstd(e) => e.inner(),
-    }
-}
-pub open spec fn gzw_level<W: Write + io::Seek>(g: GenericZipWriter<W>) -> int {
-    match g {
-        GenericZipWriter::Closed => 0,
-        GenericZipWriter::Storer(_) => 0,
-        GenericZipWriter::Deflater(e) => e.g_level(),
-        GenericZipWriter::Bzip2(e) => e.g_level(),
-        GenericZipWriter::Zstd(e) => e.g_level(),
-    }
-}
-pub open spec fn gzw_consumed<W: Write + io::Seek>(g: GenericZipWriter<W>) -> Seq<u8> {
-    match g {
-        GenericZipWriter::Closed => Seq::empty(),
-        GenericZipWriter::Storer(_) => Seq::empty(),
-        GenericZipWriter::Deflater(e) => e.consumed(),
-        GenericZipWriter::Bzip2(e) => e.consumed(),
-        GenericZipWriter::Zstd(e) => e.consumed(),
-    }
-}
-// `bare` is what finishing the encoder of `g` hands back: the sink itself for Storer, otherwise the sink after one
-// all-or-error write of the compressed stream (encoder contract, shims/encoders.rs)
-pub open spec fn gzw_finished<W: Write + io::Seek>(g: GenericZipWriter<W>, bare: MaybeEncrypted<W>) -> bool {
-    match g {
-        GenericZipWriter::Closed => false,
-        GenericZipWriter::Storer(w) => bare == w,
-        GenericZipWriter::Deflater(e) => wr_n(&e.inner(), &bare, true, compress(CompressionMethod::Deflated, e.g_level(), e.consumed())),
-        GenericZipWriter::Bzip2(e) => wr_n(&e.inner(), &bare, true, compress(CompressionMethod::Bzip2, e.g_level(), e.consumed())),
-        GenericZipWriter::Zstd(e) => wr_n(&e.inner(), &bare, true, compress(CompressionMethod::Zstd, e.g_level(), e.consumed())),
-    }
-}
-// What the documentation of FileOptions::compression_level promises (and property C12 demands an error outside of):
-//   Deflated 0..=9 (default 6), Bzip2 0..=9 (default 6), Zstd: zstd's own range (default 3),
-//   every other method: only `None`.  AES and Unsupported(_) cannot be written at all.
-pub open spec fn level_accepted(m: CompressionMethod, level: Option<i32>) -> bool {
-    match m {
-        CompressionMethod::Stored => level is None,
-        CompressionMethod::Deflated => (level matches Some(l) ==> 0 <= l <= 9),
-        CompressionMethod::Bzip2 => (level matches Some(l) ==> 0 <= l <= 9),
-        CompressionMethod::Zstd => (level matches Some(l) ==> zstd::min_level() <= l <= zstd::max_level()),
-        CompressionMethod::Aes => false,
-        CompressionMethod::Unsupported(_) => false,
-    }
-}
-pub open spec fn effective_level(m: CompressionMethod, level: Option<i32>) -> int {
-    match m {
-        CompressionMethod::Deflated => (match level { Some(l) => l as int, None => 6 }),
-        CompressionMethod::Bzip2 => (match level { Some(l) => l as int, None => 6 }),
-        CompressionMethod::Zstd => (match level { Some(l) => l as int, None => 3 }),
-        _ => 0,
-    }
-}
+//@include common/writer_types.rs
 //@use deflate_compression_level_range
 //@use bzip2_compression_level_range
 //@impl src/write.rs | impl<W: Write + io::Seek> GenericZipWriter<W>
